@@ -1,5 +1,5 @@
 (* C16 - Cargo features only add members; they never change the wire format of the rest. *)
-From Ctap Require Import Base Schema Typed Inst Tables Limits Extends.
+From Ctap Require Import Base Schema Typed WellTyped Inst Tables Limits Extends SerP RoundTripP MonoP ObEnvRt.
 Local Open Scope string_scope.
 Local Open Scope Z_scope.
 
@@ -23,6 +23,37 @@ Theorem c16_large_blob_fragment :
                     | _ => false end) all_feats = true.
 Proof. vm_compute. reflexivity. Qed.
 
+(* WHAT THE EXTENSION RELATION MEANS ON THE WIRE.  For any two declaration environments with
+   env_extends e e' (the boolean above) and well-formed declarations, every value that is well-typed in the
+   smaller configuration - i.e. expressed with the members the two have in common - has exactly the same
+   encoding in the larger one: by induction over the codec, for all values. *)
+Theorem c16_extension_preserves_encoding : forall e e' t v b,
+  env_extends e e' = true -> env_rt e = true -> env_rt e' = true ->
+  wt e type_fuel t v = true -> encode e t v = Some b -> encode e' t v = Some b.
+Proof. exact encode_mono. Qed.
+
+(* instantiated at the declarations regenerated from /repo: any two feature sets f <= f' *)
+Theorem c16_encoding_independent_of_features : forall f f' t v b,
+  In f all_feats -> In f' all_feats -> subset_feats f f' = true ->
+  wt (gen_env f) type_fuel t v = true -> encode (gen_env f) t v = Some b -> encode (gen_env f') t v = Some b.
+Proof.
+  intros f f' t v b Hf Hf' Hs W H.
+  exact (encode_mono_family gen_env f f' t v b c16_generated_extends generated_env_rt Hf Hf' Hs W H).
+Qed.
+
+(* and what the larger configuration decodes from such an encoding is a value with the same encoding
+   (round trip in the larger configuration): nothing common is renumbered, renamed or re-typed *)
+Theorem c16_common_message_decodes_in_both : forall f f' t v b rest,
+  In f all_feats -> In f' all_feats -> subset_feats f f' = true ->
+  wt (gen_env f) type_fuel t v = true -> encode (gen_env f) t v = Some b ->
+  decode (gen_env f) t (b ++ rest)%list = Ok (v, rest) /\ encode (gen_env f') t v = Some b.
+Proof.
+  intros f f' t v b rest Hf Hf' Hs W H. split.
+  - apply (decode_encode (gen_env f) t v b rest); [|exact W|exact H].
+    exact (forallb_In (fun f => env_rt (gen_env f)) all_feats f generated_env_rt Hf).
+  - exact (encode_mono_family gen_env f f' t v b c16_generated_extends generated_env_rt Hf Hf' Hs W H).
+Qed.
+
 Example c16_ex : subset_feats ["large-blobs"] ["get-info-full"; "large-blobs"] = true.
 Proof. reflexivity. Qed.
 
@@ -30,3 +61,6 @@ Eval vm_compute in "ASSUMPTIONS c16_generated_extends". Print Assumptions c16_ge
 Eval vm_compute in "ASSUMPTIONS c16_spec_extends". Print Assumptions c16_spec_extends.
 Eval vm_compute in "ASSUMPTIONS c16_std_arbitrary_irrelevant". Print Assumptions c16_std_arbitrary_irrelevant.
 Eval vm_compute in "ASSUMPTIONS c16_large_blob_fragment". Print Assumptions c16_large_blob_fragment.
+Eval vm_compute in "ASSUMPTIONS c16_extension_preserves_encoding". Print Assumptions c16_extension_preserves_encoding.
+Eval vm_compute in "ASSUMPTIONS c16_encoding_independent_of_features". Print Assumptions c16_encoding_independent_of_features.
+Eval vm_compute in "ASSUMPTIONS c16_common_message_decodes_in_both". Print Assumptions c16_common_message_decodes_in_both.
